@@ -66,6 +66,14 @@ Theorem C07_run_time_bounded : forall (c : cfg), 1 <= f c -> 0 < tconn c -> 0 < 
 Proof. exact clock_bound. Qed.
 Print Assumptions C07_run_time_bounded.
 
+(* the same with the tick condition in its plain form - "no thread can take a step" alone (mprun); that such a state is
+   calm (watchdog asleep and not due, every worker parked) is a lemma, not a hypothesis *)
+Theorem C07_run_time_bounded_plain : forall (c : cfg), 1 <= f c -> 0 < tconn c -> 0 < tcmd c -> forall t0, 0 <= t0 -> forall es s,
+  mprun c (init c t0) es s ->
+  now s <= t0 + (2 * Z.of_nat (ntgt c) + 1) * (Z.max (tconn c) (tcmd c) + Z.of_N WDOG_POLL).
+Proof. exact clock_bound_mp. Qed.
+Print Assumptions C07_run_time_bounded_plain.
+
 (* No livelock: from every reachable state, a stretch of the run without events of the environment (clock tick,
    spurious wake-up of the dispatcher, arrival of a signal) is no longer than an explicit measure of that state
    (4 * remaining worker steps + dispatcher phase + 5 * watchdog scan + signals thread phase); the watchdog period
